@@ -789,8 +789,11 @@ public:
              "(all 16 combinations of its four calculators), Gadget / AsciiFile "
              "writer, snapshots during the run, radiation every step or every "
              "2.5 steps, diffuse re-emission, a maximum neutral fraction, five "
-             "source distributions, restart dumps every step and a stop + "
-             "restart after the first step; stack and heap pre-filled with 0xA5; oracle: normal "
+             "source distributions (two of them with or without their "
+             "source log), source copy levels 0-2, --task-plot-rhd, restart "
+             "dumps every step and a stop + restart after the first step, "
+             "the restarted run with the same or another number of threads "
+             "(1-6); stack and heap pre-filled with 0xA5; oracle: normal "
              "return, no sanitizer report / signal / abort";
     else if (prop == "C14")
       what = "system-level part of C14: an uninterrupted run A (dump after "
@@ -818,7 +821,9 @@ public:
              "outside the 192 leading timer bytes and one 8-byte window (the "
              "re-seeded random seed); one dump per run is read through the "
              "restart constructors do_simulation uses and written again "
-             "(bytes must be identical)";
+             "(bytes must be identical); optional components: hydro mask, "
+             "turbulence forcing, live output, gravity, six source "
+             "distributions (three of them with or without their source log)";
     else
       what = "totals of mass, momentum and energy (long double, compensated "
              "summation) are compared before and after every step: all five "
